@@ -418,6 +418,21 @@ func main() {
 				reset()
 			})
 		}
+		// wrapped texts: a valid text between every pair (a, b) of bytes from a bracket / quote / separator / hex alphabet
+		// (two insertions: {..}, "..", (..), <..>, spaces, ...), and with every two-byte prefix or suffix over it
+		r.Phase("valid texts (plain, upper case, URN) wrapped in every pair of bytes over a 24-byte bracket/quote/separator/hex alphabet, and extended by every two-byte prefix or suffix x 4 rules", "complete grid", func() {
+			wrap := []byte("{}()[]<>\"'` \t\n-_:,.0afAF")
+			r.Parallel(int64(len(wrap)), 1, func(w *mc.W, i int64) {
+				a := wrap[i]
+				for _, base := range []string{bases[0], strings.ToUpper(bases[0]), "urn:uuid:" + bases[0], "urn:uuid:" + strings.ToUpper(bases[1])} {
+					for _, b := range wrap {
+						one(w, []byte(string(a)+base+string(b)))
+						one(w, []byte(string(a)+string(b)+base))
+						one(w, []byte(base+string(a)+string(b)))
+					}
+				}
+			})
+		})
 		// truncated / extended lengths
 		r.Phase("all lengths 0..60 of a repeated valid text, and prefix variants", "complete grid", func() {
 			r.Serial(func(w *mc.W) {
